@@ -12,10 +12,13 @@ NullTags   == {"null"}
 BoolTags   == {"true", "false"}
 IntTags    == {"i0", "i1", "im1", "i2", "i3", "ibig"}  \* 0 1 -1 2 3 2^63+1
 FloatTags  == {"f1_0", "f1_5", "f2_0"}                 \* 1.0 1.5 2.0
-StrTags    == {"s_empty", "s_a", "s_b", "s_1", "s_v20", "s_v10", "s_esc"}
+MethodTags == {"m_ok", "m_one", "m_perr", "m_exc", "m_unk"}  \* method names (m_unk is never registered)
+StrTags    == {"s_empty", "s_a", "s_b", "s_1", "s_v20", "s_v10", "s_esc", "mw_short", "mw_rewritten"}
+                \cup MethodTags
               \* ""  "a"  "b"  "1"  "2.0"  "1.0"  escapes+control+astral
 ArrTags    == {"a_empty", "a_1", "a_deep"}             \* []  [1]  nested
-ObjTags    == {"o_empty", "o_a", "o_deep"}             \* {}  {"a":1}  nested
+ObjTags    == {"o_empty", "o_a", "o_deep", "r_none", "r_a1", "r_deep", "r_one_a1"}
+              \* {}  {"a":1}  nested; r_*: the argument records the instrumented methods return
 Values     == NullTags \cup BoolTags \cup IntTags \cup FloatTags \cup StrTags
                 \cup ArrTags \cup ObjTags
 NonObjects == Values \ ObjTags
